@@ -225,6 +225,11 @@ func ParsePPSNALUnit(data []byte, spsMap map[uint32]*SPS) (*PPS, error) {
 	if pps.TilesEnabledFlag {
 		pps.NumTileColumnsMinus1 = r.ReadExpGolomb()
 		pps.NumTileRowsMinus1 = r.ReadExpGolomb()
+		// Table A.8: at most 20 tile columns and 22 tile rows at the highest level
+		if pps.NumTileColumnsMinus1 >= 20 || pps.NumTileRowsMinus1 >= 22 {
+			return nil, fmt.Errorf("too many tiles: %d columns, %d rows",
+				pps.NumTileColumnsMinus1+1, pps.NumTileRowsMinus1+1)
+		}
 		pps.UniformSpacingFlag = r.ReadFlag()
 		if !pps.UniformSpacingFlag {
 			for i := uint(0); i < pps.NumTileColumnsMinus1; i++ {
